@@ -595,6 +595,62 @@ def grid_range(facts, res):
     res.floor(R, n, 2, "returns of getTreeCoordinate")
 
 
+# ---------------------------------------------------------------------------------------------- C06.7 relative position in the wider type
+def relative_position(facts, res):
+    """position -> leaf: the box corner is subtracted from the particle's coordinate BEFORE anything converts that coordinate to
+    the tree's coordinate type.  The particle data type may be wider than the coordinate type (double data in a float tree); the
+    relative position is small and survives the conversion, the absolute coordinate of a box away from the origin does not."""
+    R = "C06.7.relative-position"
+    n = 0
+    for cls in ("TbfMortonSpaceIndex", "TbfHilbertSpaceIndex"):
+        ms = [m for m in facts.methods_of(cls) if m["name"] == "getIndexFromPosition" and tbf.body(m) is not None and not m.get("inst")]
+        if len(ms) != 1:
+            raise AnalysisBroken("%s::getIndexFromPosition not found" % cls)
+        fn = ms[0]
+        fm = stages.FnModel(facts, fn)
+        pos = fn["params"][0]["did"]
+        calls = [c for c in walk(fm.body) if c.get("k") in ("CallExpr", "CXXMemberCallExpr") and tbf.callee_name(c) == "getTreeCoordinate"]
+        if len(calls) != 1:
+            raise AnalysisBroken("%s: %d getTreeCoordinate calls (1 confirmed by reading)" % (fn["qname"], len(calls)))
+
+        def follow(e, conv):
+            """(expression, conversions to a non-deduced type met on the way) after following single-assignment locals and casts"""
+            for _ in range(8):
+                e = strip(e)
+                k = e.get("k")
+                if k in ("CXXStaticCastExpr", "CStyleCastExpr", "CXXFunctionalCastExpr", "CXXUnresolvedConstructExpr") and len(kids(e)) == 1:
+                    conv = conv + [(e, e.get("tw") or e.get("t") or "?")]
+                    e = kids(e)[0]
+                    continue
+                if k == "DeclRefExpr" and e.get("did") != pos:
+                    d = fm.decls.get(e.get("did"))
+                    if d is not None and d.get("k") == "VarDecl" and kids(d) and e["did"] not in fm.assigned:
+                        t = d.get("t", "")
+                        if "auto" not in t:
+                            conv = conv + [(d, t)]
+                        e = kids(d)[0]
+                        continue
+                break
+            return strip(e), conv
+        arg, conv0 = follow(tbf.call_args(calls[0])[0], [])
+        if arg.get("k") != "BinaryOperator" or arg.get("op") != "-":
+            raise AnalysisBroken("%s: the argument of getTreeCoordinate is not `coordinate - box corner` (%s)" % (fn["qname"], facts.ntext(arg)[:80]))
+        lhs, conv = follow(kids(arg)[0], [])
+        from_pos = any(y.get("k") == "DeclRefExpr" and y.get("did") == pos for y in walk(lhs))
+        rhs_txt = fm.origin(kids(arg)[1])
+        n += 1
+        res.instance(R, fn["qname"], facts.loc(arg), "relative position = %s - %s ; conversions of the coordinate before the subtraction: %s" % (fm.origin(lhs)[:60], rhs_txt[:60], [t for _x, t in conv] or "none"))
+        if not from_pos:
+            raise AnalysisBroken("%s: the minuend `%s` is not derived from the position parameter" % (fn["qname"], facts.ntext(lhs)[:80]))
+        if "getBoxCorner" not in rhs_txt:
+            res.violation(R, tbf.rel(facts.path_of(arg)), fn["qname"], "corner", arg["l"][1], "the relative position subtracts `%s`, not the box corner" % rhs_txt[:80])
+        if conv:
+            x, t = conv[0]
+            res.violation(R, tbf.rel(facts.path_of(x)), fn["qname"], "converted-before-subtraction", x["l"][1],
+                          "the particle's absolute coordinate is converted to `%s` before the box corner is subtracted: with a data type wider than the coordinate type and a box away from the origin the relative position loses the bits that select the leaf (the particle is stored in a leaf whose box does not contain it)" % t)
+    res.floor(R, n, 2, "position -> index conversions")
+
+
 def run(res, tier):
     facts = tbf.scan("core")
     res.units.append("umbrella TU 'core': TbfMemoryBlock, group constructors, shipped kernels, ordering classes; witnesses c06_narrow, c06_probe")
@@ -607,6 +663,8 @@ def run(res, tier):
     copy_provenance(facts, res)
     res.rule("C06.6 grid range (interval analysis, exact arithmetic, symbolic in box width and cells per dimension): every relative position of the closed box maps to a coordinate in [0, N-1]")
     grid_range(facts, res)
+    res.rule("C06.7 relative position: the box corner is subtracted from the particle's coordinate before any conversion of that coordinate to the tree's coordinate type")
+    relative_position(facts, res)
     narrowing(res, tier)
     k = constcast_lint(facts, res)
     curve_domains(facts, res)
